@@ -244,7 +244,7 @@ func runRecord(path string, seed int64, ntraces, steps, na, ns int, sum *tl.Summ
 		rules := sk.RuleNames[(t+int(seed))%4]
 		c := cfgFor(t/2 + int(seed))
 		g := sk.DefaultGen()
-		g.Aux, g.Reads = false, false
+		g.Reads = false // (transient storage, access list, refund and logs are on: Copy must keep them apart too)
 		w := u.RandomWorld(r, g.MaxCode)
 		s, err := newSystem(u, c, rules, w)
 		if err != nil {
